@@ -200,7 +200,7 @@ def run_c11(tier):
             acc = [t for t, c in items if c["ok"]][:2]
             rej = [t for t, c in items if not c["ok"]][:2]
             samples.append({"position": pos, "in_language": acc, "not_in_language": rej})
-        n_multi = multi_defects(v, pool, wd, rng, tier)
+        n_multi = multi_defects(v, pool, wd, rng, tier) + scope_keywords(v, pool, wd, rng)
         n_kinds = node_kinds(v, pool, wd, rng, tier)
     finally:
         pool.close()
@@ -223,6 +223,26 @@ def run_c11(tier):
         "the three single-valued meta positions are sampled, all other sites are exhaustive within the bound",
         "reserved / Must-prefixed / InContext-suffixed / duplicate getters are decided by the API family (C13)"])
     return rc
+
+
+# --------------------------------------------------------------------------- scope keywords
+
+def scope_keywords(v, pool, wd, rng):
+    """the scope keyword set of Grammar.tla against near misses (case, separators, padding, the empty string)"""
+    r = core.run_tlc("MC_Scope.tla", "MC_Scope.cfg", workers=1, timeout=300)
+    jobs = []
+    for i, c in enumerate(r.emitted):
+        d = os.path.join(wd, "sc%03d" % i)
+        os.makedirs(d)
+        with open(os.path.join(d, "in.yaml"), "w") as f:
+            f.write("services:\n  s:\n    constructor: NewA\n    scope: %s\n" % concretise.yaml_str(c["s"]))
+        jobs.append({"id": i, "dir": d, "args": ["-i", "in.yaml", "-o", "out.go"], "version": "dev-main", "buildinfo": "verif", "out": "out.go"})
+    res = pool.run_all(jobs)
+    for c, rs in zip(r.emitted, res):
+        if (rs["exit"] == 0) != c["ok"]:
+            v.disagree("scope-keyword", {"scope": c["s"]}, {"model_in_language": c["ok"], "exit": rs["exit"],
+                                                           "errors": core.Report(rs["stdout"]).errors[:2]})
+    return len(r.emitted)
 
 
 # --------------------------------------------------------------------------- wrong YAML node kinds
@@ -267,6 +287,7 @@ DEFECTS = {
     "ctor-and-value": (lambda d: d["services"].__setitem__("d2", {"constructor": "NewA", "value": "Var"}), "d2", 1),
     "args-without-ctor": (lambda d: d["services"].__setitem__("d3", {"value": "Var", "arguments": [1]}), "d3", 1),
     "duplicate-tag": (lambda d: d["services"].__setitem__("d4", {"constructor": "NewA", "tags": ["x", "x"]}), "d4", 1),
+    "duplicate-tag-other-priority": (lambda d: d["services"].__setitem__("d13", {"constructor": "NewA", "tags": ["y", {"name": "y", "priority": 9}]}), "d13", 1),
     "bad-type": (lambda d: d["services"].__setitem__("d5", {"constructor": "NewA", "type": "**T"}), "d5", 1),
     "bad-field-name": (lambda d: d["services"].__setitem__("d6", {"constructor": "NewA", "fields": {"a-b": 1}}), "d6", 1),
     "arg-not-primitive": (lambda d: d["services"].__setitem__("d7", {"constructor": "NewA", "arguments": [[1]]}), "d7", 1),
